@@ -78,6 +78,9 @@ def check_resume(prop: str, res: Result, fi: FuncInfo, seq_txt: str, want_mark: 
             continue
         n_live += 1
         txt = case_text(c)
+        if c.result is None and "not a linear expression" in str(getattr(c, "note", "")) and any(k in str(c.note) for k in ("max(", "min(", "next(", "sum(", "len([", "for ")):
+            res.errors.append(f"{fi.where} {rule} {fi.qualname}: resume scan case {txt}: the returned position is a reduction the scan model cannot express; the rule cannot decide it")
+            continue
         if c.result is None:
             res.fail(rule, finding(prop, rule, fi, c.node, f"resume scan case {txt}: the resume position is not a position derived from the scan", construct=f"resume case {txt}"[:190]))
             continue
@@ -408,6 +411,11 @@ def check_tasks_order(prop: str, res: Result, repo: Repo, need=(("collapse", "co
     full = {"collapse": "self.collapse_candles", "convert": "self.convert_candles", "trim": "self.trim_candles"}
     for p in stmt_paths(t.node.body):
         names = [call_target(c) for c in path_calls(p)]
+        # a path that leaves at once because there are no candles has nothing to order (each task is a no-op on an empty list)
+        conds = [(item[1].test, item[2]) for item in p if isinstance(item, tuple) and item and item[0] == "if"]
+        if not names and any((ast.unparse(tst).replace(" ", "") in ("notself.candles", "len(self.candles)==0") and truth) or (ast.unparse(tst).replace(" ", "") == "self.candles" and not truth) for tst, truth in conds):
+            res.ok(rule, {"site": t.where, "path": "no candles: nothing to do"})
+            continue
         for a, b in need:
             fa, fb = full[a], full[b]
             if fa in names and fb in names and names.index(fa) < names.index(fb) and names.count(fa) == 1 and names.count(fb) == 1:
